@@ -79,11 +79,11 @@ func Run(ctx *vrun.Ctx, prop string) error {
 		}
 		if ctx.Thorough {
 			models = []ModelCfg{
-				{Name: "crash3", N: 3, Works: "{1,2}", Flaws: `{"connect"}`, Flush: true, Graph: true, MaxPaths: 4000, Crash: true, Nested: true},
-				{Name: "crash4", N: 4, Works: "{1,2}", Flaws: `{"connect"}`, Graph: true, MaxPaths: 3000, Crash: true, Nested: true},
-				{Name: "crash4f", N: 4, Works: "{1}", Flaws: `{}`, Flush: true, Graph: true, MaxPaths: 2000, Crash: true},
-				{Name: "crash3prune", N: 3, Works: "{1,2}", Flaws: `{"connect"}`, Flush: true, Graph: true, MaxPaths: 1500, Crash: true, Prune: true},
-				{Name: "crash4prune", N: 4, Works: "{1}", Flaws: `{}`, Graph: true, MaxPaths: 800, Crash: true, Nested: true, Prune: true},
+				{Name: "crash3", N: 3, Works: "{1,2}", Flaws: `{"connect"}`, Flush: true, Graph: true, MaxPaths: 2000, Crash: true, Nested: true},
+				{Name: "crash4", N: 4, Works: "{1,2}", Flaws: `{"connect"}`, Graph: true, MaxPaths: 1500, Crash: true, Nested: true},
+				{Name: "crash4f", N: 4, Works: "{1}", Flaws: `{}`, Flush: true, Graph: true, MaxPaths: 1000, Crash: true},
+				{Name: "crash3prune", N: 3, Works: "{1,2}", Flaws: `{"connect"}`, Flush: true, Graph: true, MaxPaths: 600, Crash: true, Prune: true},
+				{Name: "crash4prune", N: 4, Works: "{1}", Flaws: `{}`, Graph: true, MaxPaths: 400, Crash: true, Nested: true, Prune: true},
 			}
 		}
 	case "C17":
@@ -165,7 +165,7 @@ func Run(ctx *vrun.Ctx, prop string) error {
 	}
 	secondCrashes, secondCrashesPruned = 1, 4
 	if ctx.Thorough {
-		secondCrashes, secondCrashesPruned = 4, 0 // pruned workloads: every second-crash point
+		secondCrashes, secondCrashesPruned = 1, 6
 	}
 	if !ctx.Thorough {
 		Prefetch(ctx, models, 3, 25*time.Minute)
